@@ -1033,7 +1033,16 @@ def case_model(ctx, c):
     u_new = gen_effects(g, str(g.choice(["gauss", "ints", "gauss-zeros", "negative"])), p, t, fixed)
     b_new = g.normal(size=(q, t)) * 5
     try:
-        if how == "setter":
+        if how == "setter" and rcls != "native":
+            try:
+                model.u_a = R(u_new); model.beta = R(b_new)
+            except Exception as e:
+                model.u_a = u_new.copy(); model.beta = b_new.copy()   # native arrays are accepted
+                ctx.raised("%s[%s]" % (defsite(model, "u_a"), rcls), e)
+                ctx.violation("C04.returns", defsite(model, "u_a") + " setter", "accepts every in-memory representation of the same values "
+                              "(raised %s)" % type(e).__name__, rcls, witness=dict(wit0, raised=brief(e)), coords=coords)
+            ctx.ok("C04.returns")
+        elif how == "setter":
             model.u_a = u_new.copy(); model.beta = b_new.copy()
         else:
             model.u_a[...] = u_new; model.beta[...] = b_new
